@@ -1463,19 +1463,41 @@ def write_if_changed(path, text):
     return True
 
 
+PLUGINS = ["translate_layout", "translate_nonlin", "translate_metrics"]   # modules exposing TARGETS (same convention)
+
+
+def all_targets():
+    """TARGETS of this module plus those of the plug-in translator modules that are present"""
+    import importlib
+    out = dict(TARGETS)
+    here = os.path.dirname(os.path.abspath(__file__))
+    if here not in sys.path:
+        sys.path.insert(0, here)
+    for mod in PLUGINS:
+        if os.path.exists(os.path.join(here, mod + ".py")):
+            m = importlib.import_module(mod)
+            for k, fn in m.TARGETS.items():
+                out[k] = fn
+    return out
+
+
 def run(targets=None):
     """returns dict target -> {'ok': bool, 'error': str|None, 'changed': bool}"""
     os.makedirs(GEN_DIR, exist_ok=True)
     res = {}
     hashes = {}
-    for name, fn in TARGETS.items():
+    for name, fn in all_targets().items():
         if targets and name not in targets:
             continue
         try:
             text = fn(hashes)
             changed = write_if_changed(os.path.join(GEN_DIR, name + ".lean"), text)
             res[name] = {"ok": True, "error": None, "changed": changed}
-        except (TranslateError, SyntaxError, FileNotFoundError) as e:  # broken obligation
+        except (SyntaxError, FileNotFoundError) as e:  # broken obligation
+            res[name] = {"ok": False, "error": f"{type(e).__name__}: {e}", "changed": False}
+        except Exception as e:  # noqa: BLE001  TranslateError (also the plug-ins' copy of the class), anything else
+            if type(e).__name__ != "TranslateError":
+                raise
             res[name] = {"ok": False, "error": f"{type(e).__name__}: {e}", "changed": False}
     write_if_changed(os.path.join(GEN_DIR, "hashes.json"), json.dumps(hashes, indent=1, sort_keys=True) + "\n")
     return res, hashes
